@@ -839,6 +839,12 @@ impl CanonicalizeContext {
 					CanonicalizeContext::make_roman_numeral(mathml);
 				}
 				if first_char == '-' || first_char == '\u{2212}' {
+					if text[first_char.len_utf8()..].trim().is_empty() {
+						// nothing but the minus sign: it is an operator, not a number (splitting it off would leave an empty mn)
+						set_mathml_name(mathml, "mo");
+						mathml.set_text("-");
+						return Some(mathml);
+					}
 					let doc = mathml.document();
 					let mo = create_mathml_element(&doc, "mo");
 					let mn = create_mathml_element(&doc, "mn");
